@@ -46,7 +46,12 @@ func xmd(r *mon.Run, c Case) {
 	out := bytes.Repeat([]byte{0xa5}, c.OutLen)
 	var err error
 	r.Journal("c14 xmd %v dst=%d msg=%d out=%d", hf, len(dst), len(msg), c.OutLen)
-	pan, pm := mon.Try(func() { err = h2c.ExpandMessageXMD(out, hf, dst, msg) })
+	// the library sees DST and message as adjacent fields of one frame (sub-slices with spare capacity)
+	fr, frameCheck := mon.Frame(dst, msg)
+	pan, pm := mon.Try(func() { err = h2c.ExpandMessageXMD(out, hf, fr[0], fr[1]) })
+	if m := frameCheck(); m != "" {
+		r.Violate("h2c/ExpandMessageXMD/writes-caller-memory", m, c)
+	}
 	r.Eval([]byte(fmt.Sprintf("xmd|%d|%s|%s|%d", c.Hash, c.DST, c.Msg, c.OutLen)))
 	var want []byte
 	var werr error
@@ -76,7 +81,11 @@ func xof(r *mon.Run, c Case) {
 	x := mk()
 	x.Write([]byte("dirty state that the expander must not inherit"))
 	var err error
-	pan, pm := mon.Try(func() { err = h2c.ExpandMessageXOF(out, x, dst, msg) })
+	fr, frameCheck := mon.Frame(dst, msg)
+	pan, pm := mon.Try(func() { err = h2c.ExpandMessageXOF(out, x, fr[0], fr[1]) })
+	if m := frameCheck(); m != "" {
+		r.Violate("h2c/ExpandMessageXOF/writes-caller-memory", m, c)
+	}
 	r.Eval([]byte(fmt.Sprintf("xof|%d|%s|%s|%d", c.XOF, c.DST, c.Msg, c.OutLen)))
 	var want []byte
 	var werr error
@@ -118,25 +127,32 @@ func edwardsResult(r *mon.Run, c Case, name string, p *curve.EdwardsPoint, err e
 
 func suites(r *mon.Run, c Case) {
 	dst, msg := mon.UnHex(c.DST), mon.UnHex(c.Msg)
+	fr, frameCheck := mon.Frame(dst, msg)
+	ldst, lmsg := fr[0], fr[1]
+	defer func() {
+		if m := frameCheck(); m != "" {
+			r.Violate("h2c/suites/writes-caller-memory", m, c)
+		}
+	}()
 	r.Eval([]byte("suite|" + c.DST + "|" + c.Msg))
 	r.Journal("c14 suites dst=%d msg=%d", len(dst), len(msg))
 	sha512New := func() hash.Hash { return crypto.SHA512.New() }
 	u96, _ := ref.ExpandXMD(sha512New, msg, dst, 96)
 	u48, _ := ref.ExpandXMD(sha512New, msg, dst, 48)
-	p, err := h2c.Edwards25519_XMD_SHA512_ELL2_RO(dst, msg)
+	p, err := h2c.Edwards25519_XMD_SHA512_ELL2_RO(ldst, lmsg)
 	edwardsResult(r, c, "Edwards25519_XMD_SHA512_ELL2_RO", p, err, ref.HashToCurveFromUniform(u96))
-	p, err = h2c.Edwards25519_XMD_SHA512_ELL2_NU(dst, msg)
+	p, err = h2c.Edwards25519_XMD_SHA512_ELL2_NU(ldst, lmsg)
 	edwardsResult(r, c, "Edwards25519_XMD_SHA512_ELL2_NU", p, err, ref.EncodeToCurveFromUniform(u48))
 	for _, hf := range []crypto.Hash{crypto.SHA256, crypto.SHA384, crypto.SHA512, crypto.SHA3_256} {
 		nh := func() hash.Hash { return hf.New() }
 		u96, _ := ref.ExpandXMD(nh, msg, dst, 96)
 		u48, _ := ref.ExpandXMD(nh, msg, dst, 48)
 		u64, _ := ref.ExpandXMD(nh, msg, dst, 64)
-		p, err := h2c.Edwards25519_XMD_ELL2_RO(hf, dst, msg)
+		p, err := h2c.Edwards25519_XMD_ELL2_RO(hf, ldst, lmsg)
 		edwardsResult(r, c, fmt.Sprintf("Edwards25519_XMD_ELL2_RO(%v)", hf), p, err, ref.HashToCurveFromUniform(u96))
-		p, err = h2c.Edwards25519_XMD_ELL2_NU(hf, dst, msg)
+		p, err = h2c.Edwards25519_XMD_ELL2_NU(hf, ldst, lmsg)
 		edwardsResult(r, c, fmt.Sprintf("Edwards25519_XMD_ELL2_NU(%v)", hf), p, err, ref.EncodeToCurveFromUniform(u48))
-		rp, err := h2c.Ristretto255_XMD_R255MAP_RO(hf, dst, msg)
+		rp, err := h2c.Ristretto255_XMD_R255MAP_RO(hf, ldst, lmsg)
 		r.Eval(nil)
 		if err != nil {
 			r.Violate("h2c/Ristretto255_XMD_R255MAP_RO/error", err.Error(), c)
@@ -149,11 +165,11 @@ func suites(r *mon.Run, c Case) {
 		u96, _ := ref.ExpandXOF(nx, msg, dst, 96)
 		u48, _ := ref.ExpandXOF(nx, msg, dst, 48)
 		u64, _ := ref.ExpandXOF(nx, msg, dst, 64)
-		p, err := h2c.Edwards25519_XOF_ELL2_RO(mk(), dst, msg)
+		p, err := h2c.Edwards25519_XOF_ELL2_RO(mk(), ldst, lmsg)
 		edwardsResult(r, c, "Edwards25519_XOF_ELL2_RO("+xofNames[xi]+")", p, err, ref.HashToCurveFromUniform(u96))
-		p, err = h2c.Edwards25519_XOF_ELL2_NU(mk(), dst, msg)
+		p, err = h2c.Edwards25519_XOF_ELL2_NU(mk(), ldst, lmsg)
 		edwardsResult(r, c, "Edwards25519_XOF_ELL2_NU("+xofNames[xi]+")", p, err, ref.EncodeToCurveFromUniform(u48))
-		rp, err := h2c.Ristretto255_XOF_R255MAP_RO(mk(), dst, msg)
+		rp, err := h2c.Ristretto255_XOF_R255MAP_RO(mk(), ldst, lmsg)
 		r.Eval(nil)
 		if err != nil {
 			r.Violate("h2c/Ristretto255_XOF_R255MAP_RO/error", err.Error(), c)
@@ -163,10 +179,10 @@ func suites(r *mon.Run, c Case) {
 	}
 	// refused digests propagate as errors, never points
 	for _, hf := range []crypto.Hash{crypto.SHA1, crypto.SHA224} {
-		if p, err := h2c.Edwards25519_XMD_ELL2_RO(hf, dst, msg); err == nil || p != nil {
+		if p, err := h2c.Edwards25519_XMD_ELL2_RO(hf, ldst, lmsg); err == nil || p != nil {
 			r.Violate("h2c/Edwards25519_XMD_ELL2_RO/short-digest-accepted", fmt.Sprintf("%v", hf), c)
 		}
-		if p, err := h2c.Ristretto255_XMD_R255MAP_RO(hf, dst, msg); err == nil || p != nil {
+		if p, err := h2c.Ristretto255_XMD_R255MAP_RO(hf, ldst, lmsg); err == nil || p != nil {
 			r.Violate("h2c/Ristretto255_XMD_R255MAP_RO/short-digest-accepted", fmt.Sprintf("%v", hf), c)
 		}
 	}
